@@ -43,7 +43,14 @@ def main():
     res.append(harmless('methods2lean.py','__pow__: newMV *= base',[('clifford/_multivector.py',"            newMV = newMV * base\n","            newMV *= base\n")]))
     NB='clifford/numba/_multivector.py'
     res.append(harmless('numba2lean.py','overloads reordered (even/odd swapped in the file)',[(NB,"@numba.extending.overload_attribute(MultiVectorType, 'even')\ndef MultiVector_even(self):\n    return MultiVector.even.fget\n\n\n@numba.extending.overload_attribute(MultiVectorType, 'odd')\ndef MultiVector_odd(self):\n    return MultiVector.odd.fget\n","@numba.extending.overload_attribute(MultiVectorType, 'odd')\ndef MultiVector_odd(self):\n    return MultiVector.odd.fget\n\n\n@numba.extending.overload_attribute(MultiVectorType, 'even')\ndef MultiVector_even(self):\n    return MultiVector.even.fget\n")]))
+    res.append(harmless('shipped2lean.py','dpga.up terms reordered; gac n1 = e6 + e3',[('clifford/dpga.py',"return x*w1 + y*w2 + z*w3 + w0","return w0 + z*w3 + y*w2 + x*w1"),('clifford/gac.py',"n1 = e3 + e6","n1 = e6 + e3")]))
+    res.append(harmless('shipped2lean.py','dg3c up_cga2 with (p|p) instead of p**2',[('clifford/dg3c.py',"return euc_point + 0.5*euc_point**2*einf2 + eo2","return euc_point + 0.5*(euc_point|euc_point)*einf2 + eo2")]))
     CL='clifford/_conformal_layout.py'; L='clifford/_layout.py'; H='clifford/_layout_helpers.py'; I='clifford/__init__.py'
+    res.append(semantic('shipped2lean.py','dpga w1s = 0.5*(e1 + e1b)',[('clifford/dpga.py',"w1s = 0.5*(e1 - e1b)","w1s = 0.5*(e1 + e1b)")]))
+    res.append(semantic('shipped2lean.py','gac down reads e2 twice',[('clifford/gac.py',"return (x|e1)[0]*e1 + (x|e2)[0]*e2","return (x|e2)[0]*e1 + (x|e2)[0]*e2")]))
+    res.append(semantic('shipped2lean.py','dg3c einf2 = e9 - e10',[('clifford/dg3c.py',"einf2 = e9 + e10","einf2 = e9 - e10")]))
+    res.append(semantic('shipped2lean.py','dg3c down contracts with einf1',[('clifford/dg3c.py',"cga_pnt = ((dcga_point|einf2)|IC1)*IC1","cga_pnt = ((dcga_point|einf1)|IC1)*IC1")]))
+    res.append(semantic('shipped2lean.py','dg3c down_cga1 reads .value[2:5]',[('clifford/dg3c.py',".value[1:4]",".value[2:5]")]))
     res.append(semantic('numba2lean.py','even overload -> odd.fget',[(NB,"def MultiVector_even(self):\n    return MultiVector.even.fget","def MultiVector_even(self):\n    return MultiVector.odd.fget")]))
     res.append(semantic('numba2lean.py','ga_call runtime loop from 0 with &=',[(NB,"inds |= (grades == args[i])","inds &= (grades == args[i])")]))
     res.append(semantic('numba2lean.py','mag2 overload self*~self',[(NB,"return (~self * self).value[0]","return (self * ~self).value[0]")]))
